@@ -144,14 +144,18 @@ NETS = {
     "N11": {
         "stations": {
             "PS-A": (("fin", F8), 208, 30),
-            "PS-B": (("fin", [6, 12, 18, 24, 30]), 240, 30),
-            "PS-C": (("fin", F6), 208, -90),
+            # same minimum and maximum as PS-A's 8/16/24/32, other steps in between
+            "PS-B": (("fin", [8, 20, 32]), 240, 30),
+            "PS-C": (("fin", [8, 20, 32]), 208, -90),
         },
         "constraints": [
             ("podL", {"PS-A": 1, "PS-B": 1}, 55.0),
             ("lc", {"PS-C": 1, "PS-B": -1}, 33.1),
+            # involves EVERY station with non-uniform coefficients (it is the first constraint in some insertion orders)
+            ("tot", {"PS-A": 0.5, "PS-B": 1, "PS-C": -0.25}, 12.3),
             ("pod", {"PS-A": 1, "PS-B": 1}, 13.1),
-            ("lcL", {"PS-C": 1, "PS-B": -1}, 48.7),
+            # caps PS-C between its own steps (20) and PS-A's (24)
+            ("capC", {"PS-C": 1}, 25.1),
         ],
     },
     # N10: single phase - every station at the same phase angle - with a mixed-sign (feeder unbalance) constraint
@@ -497,7 +501,12 @@ def build_sim(scn, algo=None, on_call=None, on_return=None, net_cls=MonNet, moni
     rec.later = [e for e in events if split is not None and e.timestamp >= split]
     if split is not None:
         events = [e for e in events if e.timestamp < split]
-    sim = Simulator(net, rec, EventQueue(events), START, period=scn.get("period", 1), verbose=False, store_schedule_history=store_history, signals=scn.get("signals"))
+    queue_after = bool(scn.get("queue_after"))
+    q0 = EventQueue() if queue_after else EventQueue(events)
+    sim = Simulator(net, rec, q0, START, period=scn.get("period", 1), verbose=False, store_schedule_history=store_history, signals=scn.get("signals"))
+    if queue_after:
+        # the caller keeps its (still empty) queue object, hands it to the simulator and fills it afterwards
+        q0.add_events(events)
     periods = []
     if monitor and isinstance(net, MonNet):
         hz = horizon_of(scn) + 3
